@@ -22,7 +22,10 @@ def check(run, model, tier):
     run.rule('HSM-QUERY.match', '== comparison; answer set only on a match; child = cursor before the step')
     n = hsmrules.signal_sets(run, model, ['is_in', 'child_state'])
     run.floor('handler-call sites in the queries', n, 2)
-    hsmrules.query_rules(run, model)
+    # shape-independent rules first: a finding from them stands even if the walk has been rewritten into a shape
+    # the shape-specific rules below do not recognise (they then refuse with ANALYSIS-ERROR instead of guessing)
     hsmrules.cursor_invariant(run, model, ['is_in', 'child_state', 'init', 'dispatch'])
+    hsmrules.cursor_restored_on_failure(run, model, ['is_in', 'child_state'])
+    hsmrules.query_rules(run, model)
     run.assume('between steps temp.fun == state.fun (I1, established by init and dispatch) so is_in starts at the current state')
     run.assume('H1: SUPER queries run no action')
